@@ -163,18 +163,7 @@ def step (strict : Bool) (st : St) (ws : List String) : St × Ans :=
     | some _, some k, some mo =>
       (setSlot st f { opened := true, m := Frag.empty k (if mo = 0 then 10000 else mo), S := [] }, ans "ok")
     | _, _, _ => bad
-  | [o, f, kind] =>
-    if !(o = "openfield" || o = "openholder" || o = "openserver") then
-      (match getSlot st f with
-       | none => bad
-       | some x =>
-         if !x.opened then (st, ans "err:closed") else
-         match parseOp [o, kind] with
-         | none => bad
-         | some op =>
-           let tag := if o = "setrow" then "setrow-changed-always-true" else o
-           let (x', a) := runOp x op tag
-           (setSlot st f x', a)) else
+  | ["openfield", f, kind] | ["openholder", f, kind] | ["openserver", f, kind] =>
     match getSlot st f, parseKind kind with
     | some _, some k =>
       (setSlot st f { opened := true, field := true, m := Frag.empty k 10000, S := [] }, ans "ok")
